@@ -359,14 +359,20 @@ def trace_tie(ctx, targets):
 # (tools/trace2lean.py), the kernel decides its equality with the trace of the proved model, and the
 # generic lemmas of Smtb/Properties/GoTrace.lean are instantiated at the regenerated term.
 KERNEL_FAMILIES = {
-    'Ins': [('circuit-ins', (3, 2)), ('circuit-ins', (30, 4)), ('proof-ins', (3, 2))],
-    'Del': [('circuit-del', (3, 2)), ('circuit-del', (30, 4)), ('proof-del', (3, 2))],
-    'Bits': [('trbe', (251, 8)), ('trbe', (65521, 16))],
+    'Ins': [('circuit-ins', (3, 2)), ('circuit-ins', (30, 4)), ('proof-ins', (3, 2)), ('round-ins', (3,)), ('round-ins', (32,))],
+    'Del': [('circuit-del', (3, 2)), ('circuit-del', (30, 4)), ('proof-del', (3, 2)), ('round-del', (3,)), ('round-del', (31,))],
+    'Bits': [('trbe', (251, 8)), ('trbe', (65521, 16)), ('rmc', (251, 8)), ('rmc', (65521, 16)), ('fbbe', (8,)), ('fbbe', (32,))],
     # C05: both Poseidon gadgets fully expanded (every round constant a `c:<n>` operand)
     'Poseidon': [('poseidon', (2,)), ('poseidon', (1,))],
     # C17: the text is not the Go recorder's but the flattening (tools/flatten_extraction.py, hash
     # gadgets kept as call lines) of the model COMMITTED under /repo/formal-verification
     'Extract': [('extract-ins', (30, 4)), ('extract-del', (30, 4))],
+}
+# thorough tier: further dimensions (their own generated modules, `GoTrace<Family>T`), incl. the
+# deepest trees either mode supports and a multi-block deletion batch
+KERNEL_THOROUGH = {
+    'Ins': [('circuit-ins', (1, 1)), ('circuit-ins', (8, 3)), ('circuit-ins', (32, 2)), ('proof-ins', (8, 3)), ('proof-ins', (32, 2))],
+    'Del': [('circuit-del', (1, 1)), ('circuit-del', (8, 3)), ('circuit-del', (31, 2)), ('circuit-del', (2, 21)), ('proof-del', (8, 3)), ('proof-del', (31, 2))],
 }
 EXTRACT_DEFS = {'extract-ins': 'InsertionMbuCircuit_4_30_4_4_30', 'extract-del': 'DeletionMbuCircuit_4_4_30_4_4_30'}
 
@@ -391,6 +397,26 @@ def _kernel_target(kind, dims):
         return (['--opaque=Poseidon2', g, str(d), str(b)], name, f'traceOf ["Poseidon2"] {prog}', f'resultOf ["Poseidon2"] {prog}',
                 lambda res: (f'def {name}_meaning {{p : ℕ}} [Fact p.Prime] (hd : 2 ^ {e} ≤ p) :=\n'
                              f'  {lemma} (p := p) {d} {b} hd {name} ({res[0]}) {name}_eq (by decide +kernel)'))
+    if kind in ('round-ins', 'round-del'):
+        d, = dims
+        g, fn, lemma, e = (('InsertionRound', 'traceInsertionRound', 'insertionRound_meaning', d) if kind == 'round-ins'
+                           else ('DeletionRound', 'traceDeletionRound', 'deletionRound_meaning', d + 1))
+        name = f'go{g}_{d}'
+        prog = f'({fn} {d})'
+        return (['--opaque=Poseidon2', g, str(d)], name, f'traceOf ["Poseidon2"] {prog}', f'resultOf ["Poseidon2"] {prog}',
+                lambda res: (f'def {name}_meaning {{p : ℕ}} [Fact p.Prime] (hd : 2 ^ {e} ≤ p) :=\n'
+                             f'  {lemma} (p := p) {d} hd {name} ({res[0]}) {name}_eq (by decide +kernel)'))
+    if kind == 'rmc':
+        P, n = dims
+        name = f'goReducedModRCheck_{P}_{n}'
+        return (['ReducedModRCheck', str(P), str(n)], name, f'traceOf ["Poseidon2"] (traceReducedModRCheck {P} {n})', None,
+                lambda res: f'def {name}_meaning := reducedModRCheck_meaning (p := {P}) {n} {name} {name}_eq')
+    if kind == 'fbbe':
+        n, = dims
+        name = f'goFromBinaryBigEndian_{n}'
+        prog = f'(traceFromBinaryBigEndian {n})'
+        return (['FromBinaryBigEndian', str(n)], name, f'traceOf ["Poseidon2"] {prog}', f'resultOf ["Poseidon2"] {prog}',
+                lambda res: (f'def {name}_meaning {{p : ℕ}} :=\n  fromBinaryBigEndian_meaning (p := p) {n} {name} ({res[0]}) {name}_eq (by decide +kernel)'))
     if kind == 'poseidon':
         n, = dims
         name = f'goPoseidon{n}'
@@ -405,16 +431,19 @@ def _kernel_target(kind, dims):
     raise ValueError(kind)
 
 
-def kernel_trace_tie(ctx, family, kinds=None):
+def kernel_trace_tie(ctx, family, kinds=None, thorough_part=False):
     """T-trace-kernel for one family.  Returns a list of mismatches (dicts).  A target whose Go
     trace text differs from the model's is left to the text/DAG tie (trace_tie) and skipped here, so
     that this tie never raises an alarm of its own on a reordering the DAG tie accepts."""
     import importlib.util
     spec = importlib.util.spec_from_file_location('trace2lean', os.path.join(ROOT, 'tools', 'trace2lean.py'))
     t2l = importlib.util.module_from_spec(spec); spec.loader.exec_module(t2l)
-    mod = f'GoTrace{family}'
+    out = []
+    if ctx.thorough and family in KERNEL_THOROUGH and not thorough_part:
+        out = kernel_trace_tie(ctx, family, kinds, thorough_part=True)
+    mod = f'GoTrace{family}' + ('T' if thorough_part else '')
     body, audit_names, included, skipped = [], [], [], []
-    for kind, dims in KERNEL_FAMILIES[family]:
+    for kind, dims in (KERNEL_THOROUGH if thorough_part else KERNEL_FAMILIES)[family]:
         if kinds and kind not in kinds:
             continue
         args, name, model_expr, res_expr, inst = _kernel_target(kind, dims)
@@ -458,24 +487,30 @@ def kernel_trace_tie(ctx, family, kinds=None):
     asrc = f'import Smtb.Gen.{mod}\n' + '\n'.join(f'#print axioms {n}' for n in audit_names) + '\n'
     if not os.path.exists(aud) or open(aud).read() != asrc:
         open(aud, 'w').write(asrc)
-    ctx.extra.setdefault('kernel_trace_tie', {})[family] = {'included': included, 'skipped': skipped}
+    ctx.extra.setdefault('kernel_trace_tie', {})[mod] = {'included': included, 'skipped': skipped}
+    note = 'T-trace-kernel: tools/trace2lean.py (recorded text -> Lean term `List TLine`, line by line, the inverse of TLine.render) and, for C17, tools/flatten_extraction.py; the equality with the model trace and the meaning theorems are checked by the Lean kernel (decide +kernel, no native_decide)'
+    if note not in ctx.trusted:
+        ctx.trusted.append(note)
     if not included:
-        return []
+        return out
     try:
         lake_build(['Smtb.Properties.GoTrace'])
         audit(ctx, 'Smtb/Properties/GoTrace.lean', ['Smtb.Properties.GoTrace.' + t for t in (
             'insertion_circuit_meaning', 'deletion_circuit_meaning', 'insertionProof_meaning', 'deletionProof_meaning', 'toReducedBigEndian_meaning',
-            'poseidon2_meaning', 'poseidon1_meaning')])
+            'poseidon2_meaning', 'poseidon1_meaning', 'insertionRound_meaning', 'deletionRound_meaning', 'reducedModRCheck_meaning',
+            'fromBinaryBigEndian_meaning')])
         _built.pop(('lake', (f'Smtb.Gen.{mod}',)), None)
         lake_build([f'Smtb.Gen.{mod}'])
         audit(ctx, f'Smtb/Gen/{mod}Audit.lean', audit_names)
     except TieBroken as t:
         for label, n in included:
             ctx.oblige(f'T-trace-kernel {label}', False, t.detail[-400:])
-        return [{'target': f'T-trace-kernel {family}', 'detail': t.detail[-1500:]}]
+        return out + [{'target': f'T-trace-kernel {mod}', 'detail': t.detail[-1500:]}]
     for label, n in included:
         ctx.oblige(f'T-trace-kernel {label}', True, f'{n} recorded lines: equality with the model trace decided by the kernel; meaning theorem instantiated at the regenerated term')
-    return []
+    if ctx.thorough:
+        leanchecker(ctx, [f'Smtb.Gen.{mod}'])
+    return out
 
 
 # ---------------------------------------------------------------- T-corr-gates (validation of the gate table)
